@@ -36,7 +36,7 @@ from .. import poly
 from ..astutil import call_name, calls, const_eval, dotted, names_in, param_names, stmts, walk_local, NotConst
 from ..cfg import CFG
 from ..core import AnalysisError, Mutant
-from ..exprnorm import check_spec, same_expr
+from ..exprnorm import check_spec, same_expr, has_code
 
 EXPLANATION = (
     "Algebraic and structural rules over geometry.py, box.py, transform.py, util.py: canonical "
@@ -1035,6 +1035,13 @@ def r5_transform(ctx):
         and any(isinstance(s, ast.AugAssign) and ast.unparse(s) == "v[:, -1] *= -1" for s in fix[0].body)
     ctx.ob("R5.principal-proper", TRF, f.name, "if det(v) * det(wt) < 0: v[:, -1] *= -1", okf,
            "an improper SVD solution must be corrected so that the applied matrix is a rotation", f.lineno)
+    # the requested order of the axes goes INTO the rotation (the target of the alignment): columns permuted afterwards are a reflection
+    # for every odd order
+    rets = [st for st in ast.walk(f) if isinstance(st, ast.Return) and st.value is not None]
+    ctx.ob("R5.principal-order-by-rotation", TRF, f.name, "idx = sigma.argsort()[::-1][order]; return _put_back(atoms, centered)",
+           has_code(f, "idx = sigma.argsort()[::-1][order]") and len(rets) == 1 and same_expr(rets[0].value, "_put_back(atoms, centered)"),
+           "what is returned are the coordinates as the (proper) rotations left them: a permutation of the columns applied afterwards mirrors "
+           "the structure for the orders (0,2,1), (1,0,2), (2,1,0)", f.lineno)
 
 
 def ret_expr_last(f):
